@@ -1041,7 +1041,11 @@ func (r *runner) surviveCases(reg *Registry) []Case {
 	cs = append(cs, ValidCases(reg, r.rng, false)...)
 	cs = append(cs, IdEdgeCases(reg)...)
 	cs = append(cs, StringClassCases(reg, r.thorough)...)
-	cs = append(cs, DeepMutationCases(reg, 1)...)
+	if r.thorough {
+		cs = append(cs, DeepMutationCases(reg, 1)...)
+	} else {
+		cs = append(cs, DeepMutationCases(reg, 2)...) // (the members of params themselves: MutationCases)
+	}
 	r.rng.Shuffle(len(cs), func(i, j int) { cs[i], cs[j] = cs[j], cs[i] })
 	return cs
 }
